@@ -41,11 +41,12 @@ def contracts_module_of(reg, target):
     return None
 
 
-def run_native(modname, target, variant, seed, tier, budget, pid=None):
+def run_native(modname, target, variant, seed, tier, budget, pid=None, deadline=None):
     env = dict(os.environ)
     env['PYTHONPATH'] = VERIF
     cmd = [NATIVE_PY, os.path.join(VERIF, 'pyvc', 'native.py'), 'search', modname, target, '--variant', variant,
-           '--seed', str(seed), '--tier', tier, '--budget', str(budget)] + (['--prop', pid] if pid else [])
+           '--seed', str(seed), '--tier', tier, '--budget', str(budget)] + (['--prop', pid] if pid else []) + \
+          (['--deadline', str(deadline)] if deadline else [])
     try:
         p = subprocess.run(cmd, capture_output=True, text=True, timeout=1200 if tier == 'thorough' else 300, env=env)
     except subprocess.TimeoutExpired:
@@ -200,14 +201,24 @@ def run_check(pid, tier, seed, args):
     t2 = time.time()
     if not args.no_native:
         jobs = []
+
+        def _failed(r):
+            return r.status not in ('ok', 'bounded_by_design') or any(
+                results[i]['verdict'] != 'unsat' for i, (rr, _) in enumerate(all_obs) if rr is r)
+        # when the deductive side is undecided or fails anywhere in this property's tree (never on a tree where every
+        # obligation is discharged), the whole tree gets the deep generators of the thorough tier within a time limit:
+        # the function that left the subset may have no harness of its own, its callers do
+        tree_failed = any(_failed(r) for r in funcs)
         for r in funcs:
             con = reg.contracts[r.target]
             if con.native is None:
                 continue
-            failed = r.status not in ('ok', 'bounded_by_design') or any(
-                results[i]['verdict'] != 'unsat' for i, (rr, _) in enumerate(all_obs) if rr is r)
+            failed = _failed(r)
             budget = (60000 if failed else 6000) if tier == 'quick' else (400000 if failed else 60000)
-            jobs.append((contracts_module_of(reg, r.target), r.target, r.variant, seed, tier, budget, pid))
+            if tree_failed and tier == 'quick':
+                jobs.append((contracts_module_of(reg, r.target), r.target, r.variant, seed, 'thorough', 200000, pid, 150))
+            else:
+                jobs.append((contracts_module_of(reg, r.target), r.target, r.variant, seed, tier, budget, pid))
         with cf.ThreadPoolExecutor(max_workers=12) as ex:
             futs = {ex.submit(run_native, *j): j for j in jobs}
             for fu in cf.as_completed(futs):
